@@ -454,6 +454,7 @@ func lexInsideAction(l *lexer) stateFn {
 			l.emit(itemAnd)
 		} else {
 			l.backup()
+			l.emit(itemChar) // a lone '&' is not an operator; leaving it unemitted glued it to the next token
 		}
 	case r == '<':
 		if l.next() == '=' {
